@@ -341,11 +341,22 @@ fn sig_of(diff: &str) -> String {
 pub fn judge_calls(calls: &[Vec<u8>]) -> Eval {
     let mut p1 = NetflowParser::default();
     let mut p2 = NetflowParser::default();
+    // two more instances: per-instance randomness (hash seeds) that only sometimes shows between two parsers shows
+    // between four with much higher probability
+    let mut p3 = NetflowParser::default();
+    let mut p4 = NetflowParser::default();
     let mut issues = vec![];
     let mut keyacc = vec![];
     for c in calls {
         let r1 = p1.parse_bytes(c);
         let r2 = p2.parse_bytes(c);
+        for r in [p3.parse_bytes(c), p4.parse_bytes(c)] {
+            let mut t = Vec::new();
+            let mut t0 = Vec::new();
+            if serde_json::to_writer(&mut t, &r).is_ok() && serde_json::to_writer(&mut t0, &r1).is_ok() && t != t0 {
+                issues.push(issue("not-deterministic/two-parsers-same-history", "parsers fed the same history serialise differently"));
+            }
+        }
         let mut t1 = Vec::new();
         if let Err(e) = serde_json::to_writer(&mut t1, &r1) {
             issues.push(issue("serialization-fails", format!("{}", e)));
